@@ -8,12 +8,13 @@ def jsonTok (t : String) : Option Line :=
   else if t.startsWith "LONG" then some .tooLong
   else ((hexDecode t).bind parseDoc).map .doc
 
-/-- `json <N> <flush ms> | tokens`: the decoded samples do not depend on when flush ticks fire
-(theorem `C19.flush_ticks_do_not_change_samples`), so the model is run without ticks -/
+/-- `json <N> <flush ms> | tokens`: the model is run without flush ticks (the harness only uses
+streams whose decoded samples do not depend on them).  `NOEOL` (the text does not end with a
+newline) is not a line: the scanner's contract is that an unterminated last line is a line. -/
 def jsonCmd (ws : List String) : String :=
   match sections ws with
   | [[ns, _], toks] =>
-    match ns.toNat?, toks.mapM jsonTok with
+    match ns.toNat?, (toks.filter (· != "NOEOL")).mapM jsonTok with
     | some n, some lines =>
       match collectJSON n (lines.map .line) with
       | none => "err"
